@@ -24,6 +24,7 @@ type c12Tamper struct {
 type c12Case struct {
 	Family  string      `json:"family"` // pristine ckpt sct issuer tile pair
 	Log     string      `json:"log"`
+	Allow   bool        `json:"allow,omitempty"` // use the client configured with AllowRFC6962ArchivalLeafs
 	Tampers []c12Tamper `json:"tampers,omitempty"`
 	// sct / ckpt / issuer families
 	Entry int    `json:"entry,omitempty"`
@@ -35,12 +36,17 @@ type c12Case struct {
 
 var c12Sizes = []int{1, 2, 255, 256, 257, 513}
 var c12EvilLogs = []string{"4/evil2=3", "258/evil256=257"}
+var c12ArchLogs = []string{"5/arch3"}
+
+// c12AllowLogs are also driven through the client with AllowRFC6962ArchivalLeafs
+// set (pristine and SCT families; tile families for those of <= 8 leaves).
+var c12AllowLogs = []string{"2", "4/evil2=3", "5/arch3", "258/evil256=257"}
 
 func (w *c12World) logByID(id string) *c12Log {
 	n := 0
 	fmt.Sscanf(id, "%d", &n)
 	evil := ""
-	if i := strings.Index(id, "/evil"); i >= 0 {
+	if i := strings.Index(id, "/"); i >= 0 {
 		evil = id[i:]
 	}
 	if n < 1 || n > c12SuperN {
@@ -80,7 +86,7 @@ func (l *c12Log) dataEntryAt(N, W, pos int) int {
 	if !ok {
 		off := 0
 		for j := 0; j < W; j++ {
-			off += len(l.entries[N*256+j].TileLeaf())
+			off += len(c12TileLeaf(&l.entries[N*256+j]))
 			ends = append(ends, off)
 		}
 		l.ends[N] = ends
@@ -169,7 +175,7 @@ func (l *c12Log) apply(t c12Tamper) []byte {
 		}
 		var out []byte
 		for i := range es {
-			out = append(out, es[i].TileLeaf()...)
+			out = append(out, c12TileLeaf(&es[i])...)
 		}
 		return out
 	}
@@ -249,10 +255,24 @@ func c12Enumerate(w *c12World, pl c12Plan, emit func(*c12Case) bool) {
 	for _, n := range c12Sizes {
 		ids = append(ids, fmt.Sprint(n))
 	}
-	all := append(append([]string{}, ids...), c12EvilLogs...)
+	type logRun struct {
+		id    string
+		allow bool
+	}
+	var all, small []logRun // every log x client configuration; small: those whose tiles are tampered
+	for _, id := range append(append(append([]string{}, ids...), c12EvilLogs...), c12ArchLogs...) {
+		all = append(all, logRun{id, false})
+		small = append(small, logRun{id, false})
+	}
+	for _, id := range c12AllowLogs {
+		all = append(all, logRun{id, true})
+		if w.logByID(id).n <= 8 {
+			small = append(small, logRun{id, true})
+		}
+	}
 
-	for _, id := range all {
-		out(&c12Case{Family: "pristine", Log: id})
+	for _, lr := range all {
+		out(&c12Case{Family: "pristine", Log: lr.id, Allow: lr.allow})
 	}
 
 	// checkpoint
@@ -281,33 +301,34 @@ func c12Enumerate(w *c12World, pl c12Plan, emit func(*c12Case) bool) {
 	}
 
 	// SCTs against the pristine server
-	for _, id := range all {
+	for _, lr := range all {
+		id, allow := lr.id, lr.allow
 		l := w.logByID(id)
 		for _, e := range l.sctEntries() {
 			if stop {
 				return
 			}
-			sctLen := len(w.sct(w.key, int(l.entries[e].Index)).bytes())
+			sctLen := len(l.sct(w.key, e).bytes())
 			for _, m := range []string{"authentic", "ts+1", "ts-1", "idx+1", "idx-1", "logid-other", "sig-other-key", "all-other-key", "version1",
 				"ext-empty", "ext-unknown-first", "ext-len4", "append", "sig-empty", "sig-of-neighbour"} {
-				out(&c12Case{Family: "sct", Log: id, Entry: e, Mut: m})
+				out(&c12Case{Family: "sct", Log: id, Allow: allow, Entry: e, Mut: m})
 			}
 			for _, o := range l.sctEntries() {
 				if o != e {
-					out(&c12Case{Family: "sct", Log: id, Entry: e, Mut: "idx-set", Arg: o})
-					out(&c12Case{Family: "sct", Log: id, Entry: e, Mut: "sct-of", Arg: o})
+					out(&c12Case{Family: "sct", Log: id, Allow: allow, Entry: e, Mut: "idx-set", Arg: o})
+					out(&c12Case{Family: "sct", Log: id, Allow: allow, Entry: e, Mut: "sct-of", Arg: o})
 				}
 			}
 			for v := 0; v < 8; v++ {
-				out(&c12Case{Family: "sct", Log: id, Entry: e, Mut: "hashalg", Arg: v})
-				out(&c12Case{Family: "sct", Log: id, Entry: e, Mut: "sigalg", Arg: v})
+				out(&c12Case{Family: "sct", Log: id, Allow: allow, Entry: e, Mut: "hashalg", Arg: v})
+				out(&c12Case{Family: "sct", Log: id, Allow: allow, Entry: e, Mut: "sigalg", Arg: v})
 			}
 			for _, tl := range c12TruncLens(sctLen) {
-				out(&c12Case{Family: "sct", Log: id, Entry: e, Mut: "trunc", Pos: tl})
+				out(&c12Case{Family: "sct", Log: id, Allow: allow, Entry: e, Mut: "trunc", Pos: tl})
 			}
 			for p := 0; p < sctLen; p++ {
 				for _, m := range pl.smallMasks {
-					out(&c12Case{Family: "sct", Log: id, Entry: e, Mut: "flip", Pos: p, Mask: m})
+					out(&c12Case{Family: "sct", Log: id, Allow: allow, Entry: e, Mut: "flip", Pos: p, Mask: m})
 				}
 			}
 		}
@@ -338,12 +359,13 @@ func c12Enumerate(w *c12World, pl c12Plan, emit func(*c12Case) bool) {
 	}
 
 	// structural tile tampering, then pairs, then byte flips; sizes ascending
-	for _, id := range all {
+	for _, lr := range small {
 		if stop {
 			return
 		}
+		id, allow := lr.id, lr.allow
 		l := w.logByID(id)
-		one := func(t c12Tamper) { out(&c12Case{Family: "tile", Log: id, Tampers: []c12Tamper{t}}) }
+		one := func(t c12Tamper) { out(&c12Case{Family: "tile", Log: id, Allow: allow, Tampers: []c12Tamper{t}}) }
 		for _, p := range l.tiles {
 			body := l.objs[p]
 			tc, _ := verifmc.ParseTilePathRef(p)
@@ -412,13 +434,14 @@ func c12Enumerate(w *c12World, pl c12Plan, emit func(*c12Case) bool) {
 			for j := i + 1; j < len(l.tiles); j++ {
 				for _, a := range alpha {
 					for _, b := range alpha {
-						out(&c12Case{Family: "pair", Log: id, Tampers: []c12Tamper{coarse(i, a), coarse(j, b)}})
+						out(&c12Case{Family: "pair", Log: id, Allow: allow, Tampers: []c12Tamper{coarse(i, a), coarse(j, b)}})
 					}
 				}
 			}
 		}
 	}
-	for _, id := range all {
+	for _, lr := range small {
+		id, allow := lr.id, lr.allow
 		l := w.logByID(id)
 		restricted := pl.restrictAt > 0 && l.n >= pl.restrictAt
 		for _, p := range l.tiles {
@@ -427,20 +450,21 @@ func c12Enumerate(w *c12World, pl c12Plan, emit func(*c12Case) bool) {
 					return
 				}
 				for _, m := range pl.masks {
-					out(&c12Case{Family: "tile", Log: id, Tampers: []c12Tamper{{Obj: p, Kind: "flip", Pos: pos, Mask: m}}})
+					out(&c12Case{Family: "tile", Log: id, Allow: allow, Tampers: []c12Tamper{{Obj: p, Kind: "flip", Pos: pos, Mask: m}}})
 				}
 			}
 		}
 	}
-	for _, id := range all {
+	for _, lr := range small {
+		id, allow := lr.id, lr.allow
 		l := w.logByID(id)
 		for _, p := range l.tiles {
-			for _, pos := range c12FlipPositions(len(l.objs[p]), l.n > 4, pl.stride) {
+			for _, pos := range c12FlipPositions(len(l.objs[p]), l.n > 8, pl.stride) {
 				if stop {
 					return
 				}
 				for _, m := range pl.extraMasks {
-					out(&c12Case{Family: "tile", Log: id, Tampers: []c12Tamper{{Obj: p, Kind: "flip", Pos: pos, Mask: m}}})
+					out(&c12Case{Family: "tile", Log: id, Allow: allow, Tampers: []c12Tamper{{Obj: p, Kind: "flip", Pos: pos, Mask: m}}})
 				}
 			}
 		}
